@@ -148,10 +148,19 @@ def memset (s : St) (t : Dense) (v : Val) : Res St := do
   let offs := if t.isMaterializable then t.offsets else rangeI t.win.len
   offs.foldlM (fun s i => s.set t.win i v) s
 
-/-- `Zero()` (with the `fix:` of the view case): mask reset, then element zeroing. -/
+/-- the mask positions `ResetMask` writes: the storage offsets of the tensor's own elements for a view or a pending
+    transpose (`if t.IsMaterializable() { it := newFlatIterator(&t.AP) … t.mask[i] = fillValue }`), the whole mask window
+    otherwise (`memsetBools(t.mask, fillValue)`) -/
+def maskResetOffsets (t : Dense) (m : Win) : List Int := if t.isMaterializable then t.offsets else rangeI m.len
+
+/-- the fill loop of `ResetMask` on the mask window `m` -/
+def resetMaskBits (s : St) (t : Dense) (m : Win) (v : Bool) : Res St :=
+  (t.maskResetOffsets m).foldlM (fun s i => s.mset m i v) s
+
+/-- `Zero()` (with the `fix:` of the view case): mask reset (`ResetMask()`), then element zeroing. -/
 def zero (s : St) (t : Dense) : Res St := do
   let s ← (match t.mask with
-    | some m => if t.isMasked then (rangeI m.len).foldlM (fun s i => s.mset m i false) s else pure s
+    | some m => if t.isMasked then resetMaskBits s t m false else pure s
     | none => pure s : Res St)
   memset s t Val.zero
 
